@@ -84,7 +84,9 @@ impl<'a> G<'a> {
         s
     }
     pub fn ws(&mut self) -> String {
-        match self.r.below(10) { 0 => "  ".into(), 1 => "\n".into(), 2 => " \n ".into(), 3 => "\t".into(), _ => " ".into() }
+        // (also white space that is not ASCII: ideographic space is two columns wide, NBSP / EM SPACE / NEL one or none)
+        match self.r.below(24) { 0 | 1 => "  ".into(), 2 | 3 => "\n".into(), 4 | 5 => " \n ".into(), 6 | 7 => "\t".into(),
+                                 8 => "\u{3000}".into(), 9 => "\u{2003}".into(), 10 => "\u{a0}".into(), 11 => " \u{3000}".into(), 12 => "\u{85}".into(), _ => " ".into() }
     }
     pub fn text(&mut self) -> String {
         let long = self.r.chance(1, 6);
